@@ -513,3 +513,52 @@ def unitarity_claims_frac(T):
 
 def wd_conds(tr, start=0):
     return [c for _, c, _ in tr.wd[start:]]
+
+
+# ---------------------------------------------------------------------------------------------------------------------
+# histories of formulate() calls with caller-supplied phase-space factors (bounded; shared by C09 and C10)
+# ---------------------------------------------------------------------------------------------------------------------
+def phsp_factor_history(chk: Check, cls, function: str, extra_kw: dict[str, Any] | None = None) -> None:
+    """`cls.formulate(..., phsp_factor=f)` for a SEQUENCE of caller-supplied functions f in one process: the i-th result, unfolded, is the
+    tree obtained with the library class that f wraps -- whatever was formulated before. The functions are closures of one factory
+    (same module and qualified name) and lambdas: SymPy caches products and powers by ==/hash of their arguments, so the obligation
+    fails if the expression classes identify functions by anything coarser than the function object (the result would then carry the
+    phase-space factor of an EARLIER call: K no longer real above threshold, (1 - i K rho) F != P)."""
+    import sympy as sp
+    from ampform.dynamics import EnergyDependentWidth
+    from ampform.dynamics.phasespace import PhaseSpaceFactor, PhaseSpaceFactorAbs, PhaseSpaceFactorComplex, PhaseSpaceFactorSWave
+
+    def named(c):
+        def phsp(s, m1, m2):
+            return c(s, m1, m2)
+
+        return phsp
+
+    order = (PhaseSpaceFactorSWave, PhaseSpaceFactorAbs, PhaseSpaceFactorComplex, PhaseSpaceFactor, PhaseSpaceFactorSWave)
+    kw = {"n_channels": 1 if chk.tier == "quick" else 2, "n_poles": 1, "angular_momentum": 1, "meson_radius": sp.Symbol("d", positive=True), **(extra_kw or {})}
+
+    def run():
+        bad = []
+        for flavour, wrap in (("closures of one factory", named), ("lambdas", lambda c: (lambda s, m1, m2: c(s, m1, m2)))):  # noqa: E731
+            for k, c in enumerate(order):
+                f = wrap(c)
+                got = cls.formulate(phsp_factor=f, **kw)
+                foreign = sorted({w.phsp_factor.__qualname__ for w in got.atoms(EnergyDependentWidth) if w.phsp_factor is not f})
+                want = cls.formulate(phsp_factor=c, **kw)
+                if foreign or got.doit() != want.doit():
+                    bad.append({"call": k + 1, "flavour": flavour, "phsp_factor": f"function wrapping {c.__name__}",
+                                "history": [x.__name__ for x in order[:k]],
+                                "energy_dependent_widths_carrying_another_function": len([w for w in got.atoms(EnergyDependentWidth) if w.phsp_factor is not f]),
+                                "unfolded_equals_result_for_the_wrapped_class": bool(got.doit() == want.doit())})
+        return bad
+
+    def rep(_m=None):
+        try:
+            bad = run()
+        except Exception as e:  # noqa: BLE001
+            return {"reproduced": True, "input": f"{cls.__name__}.formulate with function-valued phsp_factor", "observed": f"{type(e).__name__}: {e}"[:300]}
+        return {"reproduced": bool(bad), "input": f"{cls.__name__}.formulate(n_channels={kw['n_channels']}, n_poles=1, angular_momentum=1, phsp_factor=f) for f wrapping {[c.__name__ for c in order]} in this order",
+                "expected": "each result is the one for the function passed in that call", "observed": bad[:2]}
+
+    r = rep()
+    chk.struct(f"history.formulate_uses_the_phsp_factor_of_this_call[{cls.__name__}{kw_tag(extra_kw or {})}]", not r["reproduced"], function, witness=r, replay=rep, bounded=True)
